@@ -275,10 +275,16 @@ impl<Mod: Modulation, Dec: DecoderFactory> BerTest<Mod, Dec> {
             })
             .take(self.num_workers)
             .collect::<Vec<_>>();
+            // Only the workers hold senders from now on, so that recv() fails
+            // instead of blocking forever if all of them have terminated.
+            drop(results_tx);
 
             let mut current_statistics = CurrentStatistics::new(self.bch_max_errors > 0);
             while current_statistics.errors_for_termination() < self.max_frame_errors {
-                match results_rx.recv().unwrap() {
+                // A receive error means that all the workers have terminated
+                // (their errors or panics are collected when joining below).
+                let Ok(result) = results_rx.recv() else { break };
+                match result {
                     Ok(result) => {
                         current_statistics.ldpc.bit_errors += result.bit_errors;
                         current_statistics.ldpc.frame_errors += u64::from(result.frame_error);
@@ -313,8 +319,10 @@ impl<Mod: Modulation, Dec: DecoderFactory> BerTest<Mod, Dec> {
 
             let mut join_error = None;
             for (handle, _) in workers.into_iter() {
-                if let Err(e) = handle.join().unwrap() {
-                    join_error = Some(e);
+                match handle.join() {
+                    Ok(Ok(())) => (),
+                    Ok(Err(e)) => join_error = Some(e),
+                    Err(_) => join_error = Some("BER worker thread panicked".into()),
                 }
             }
             if let Some(e) = join_error {
